@@ -170,12 +170,21 @@ class Database:
             logger.info(
                 "Applying migration version %d (%s)", idx, migration.__name__
             )
-            await migration(self.conn)
-            await self.execute(
-                "insert into versions (version) values (?)",
-                str(idx),
-                commit=True,
-            )
+            # The migration and the row that records it are one transaction
+            # (sqlite DDL is transactional): if we die half way through, the
+            # next start finds either none or all of it and does not trip
+            # over a table or column that already exists.
+            #
+            await self.conn.execute("begin")
+            try:
+                await migration(self.conn)
+                await self.conn.execute(
+                    "insert into versions (version) values (?)", str(idx)
+                )
+                await self.conn.commit()
+            except BaseException:
+                await self.conn.rollback()
+                raise
 
     ####################################################################
     #
